@@ -157,7 +157,7 @@ M = [
   "(file_name.ends_with(\".swp\") || file_name.ends_with(\".swx\"))", "file_name.ends_with(\".swp\")",
   "vim .swx temporaries trigger rebuilds (a unit test covers .swx: expected to fail the repo tests)"),
  ("watcher-unwrap-again", ["C16"], "src/engine/watcher.rs",
-  "        Some(file_name) => file_name.to_string_lossy(),", "        Some(file_name) => file_name.to_str().unwrap().into(),",
+  "        Some(file_name) => file_name.to_string_lossy(),", "        Some(file_name) => std::borrow::Cow::Borrowed(file_name.to_str().unwrap()),",
   "F7 re-introduced"),
  ("record-named-by-bare-target-name", ["C18"], "src/engine/incremental/storage.rs",
   "join(format!(\"{}.checksums\", target))", "join(format!(\"{}.checksums\", target.id.target_name))",
